@@ -118,6 +118,32 @@ def cast_f64(stmts_text, wanted, what):
     return "true"
 
 
+ERRCLASS = {"ValueError": "EValue", "IndexError": "EIndex", "TypeError": "EType", "RuntimeError": "ERuntime"}
+
+
+def raise_class(stmt, what):
+    """`raise <Exc>(...)` -> the model's error class of <Exc>"""
+    need(isinstance(stmt, ast.Raise) and isinstance(stmt.exc, ast.Call) and isinstance(stmt.exc.func, ast.Name),
+         "%s: `raise <Exception>(...)`, got %s" % (what, up(stmt)))
+    need(stmt.exc.func.id in ERRCLASS, "%s: exception class %s" % (what, stmt.exc.func.id))
+    return ERRCLASS[stmt.exc.func.id]
+
+
+SLOTS = {"wmean": "SMean", "werr": "SErr", "wsdev": "SStd", "m": "SMean", "e": "SErr", "s": "SStd",
+         "mn": "SMean", "err": "SErr", "std": "SStd", "indices": "SIdx"}
+
+
+def slots(names, what):
+    for n in names:
+        need(n in SLOTS, "%s: unknown result name %s" % (what, n))
+    return "[" + "; ".join(SLOTS[n] for n in names) + "]"
+
+
+def tuple_names(node, what):
+    need(isinstance(node, (ast.Tuple, ast.List)) and all(isinstance(e, ast.Name) for e in node.elts), "%s: tuple of names, got %s" % (what, up(node)))
+    return [e.id for e in node.elts]
+
+
 class Tr:
     """expression translator over Q (kind='Q') or Z (kind='Z').  env maps the *unparsed text* of a
     sub-expression (a name, `x.size`, `cov[ix, iy]`, `weights[sind[k]]`) to a Gallina variable."""
@@ -211,6 +237,9 @@ def t_wmom(tree, D):
     D.append(("gen_wmom_calcerr_default", "bool", cbool(const(ds["calcerr"], (bool,))), "def wmom(..., calcerr=%s" % up(ds["calcerr"])))
     D.append(("gen_wmom_sdev_default", "bool", cbool(const(ds["sdev"], (bool,))), "def wmom(..., sdev=%s" % up(ds["sdev"])))
     b = body_no_doc(fn)
+    sh = [x for x in ast.walk(fn) if isinstance(x, ast.If) and up(x.test) == "weights.shape != arr.shape"]
+    need(len(sh) == 1 and len(sh[0].body) == 1, "wmom: `if weights.shape != arr.shape: raise ...` for 1-d data")
+    D.append(("gen_wmom_shape_error", "err", raise_class(sh[0].body[0], "wmom shape test"), "if weights.shape != arr.shape: raise " + up(sh[0].body[0].exc.func)))
     D.append(("gen_wmom_weights_f64", "bool", cast_f64([up(x) for x in b], "weights = np.atleast_1d(weights_in).astype(np.float64)",
                                                        "wmom weights forced to float64"), "weights = np.atleast_1d(weights_in).astype(np.float64)"))
     hits = [s for s in b if isinstance(s, ast.Assign) and up(s.targets[0]) == "wtot"]
@@ -261,8 +290,9 @@ def t_wmom(tree, D):
     D.append(("gen_wmom_var_fin", "(num wtot : Q) : Q", Tr({up(val.left): "num", "wtot": "wtot"})(val), up(sd.body[0])))
     nm, val = assign1(sd.body[1], "wsdev")
     need(nm == "wsdev" and is_sqrt(val) is not None and up(is_sqrt(val)) == "wvar", "wsdev = np.sqrt(wvar)")
-    need(up(sd.body[2]) == "return (wmean, werr, wsdev)" and up(sd.orelse[0]) == "return (wmean, werr)",
-         "return wmean, werr, wsdev / return wmean, werr")
+    need(isinstance(sd.body[2], ast.Return) and isinstance(sd.orelse[0], ast.Return), "return ... / return ... under `if sdev`")
+    D.append(("gen_wmom_return_sdev", "list slot", slots(tuple_names(sd.body[2].value, "wmom return"), "wmom return"), up(sd.body[2])))
+    D.append(("gen_wmom_return", "list slot", slots(tuple_names(sd.orelse[0].value, "wmom return"), "wmom return"), up(sd.orelse[0])))
 
 
 def t_wmedian(tree, D):
@@ -299,6 +329,28 @@ def t_sigma_clip(tree, D):
     D.append(("gen_sc_nsig_default", "Q", qlit(const(ds["nsig"], (int, float))), "def sigma_clip(..., nsig=%s" % up(ds["nsig"])))
     b = body_no_doc(fn)
     need("weights = np.atleast_1d(weights).astype(np.float64)" in up(fn), "sigma_clip weights forced to float64")
+    nd_if = [x for x in b if isinstance(x, ast.If) and up(x.test).startswith("len(arr.shape)")]
+    need(len(nd_if) == 1 and len(nd_if[0].body) == 1, "sigma_clip: one test on len(arr.shape)")
+    l_, op_, r_ = one_cmp(nd_if[0].test, "sigma_clip dimension test")
+    tzz = Tr({"len(arr.shape)": "ndim"}, "Z")
+    D.append(("gen_sc_rejects_ndim", "(ndim : Z) : bool", cmp_bool(op_, tzz(l_), tzz(r_), "Z"), "if %s: raise" % up(nd_if[0].test)))
+    D.append(("gen_sc_ndim_error", "err", raise_class(nd_if[0].body[0], "sigma_clip dimension test"), "raise " + up(nd_if[0].body[0].exc.func)))
+    sz_if = [x for x in ast.walk(fn) if isinstance(x, ast.If) and "weights.size" in up(x.test)]
+    need(len(sz_if) == 1 and len(sz_if[0].body) == 1, "sigma_clip: one test on weights.size")
+    l_, op_, r_ = one_cmp(sz_if[0].test, "sigma_clip size test")
+    need(isinstance(op_, ast.NotEq), "sigma_clip size test is `!=`")
+    tzz = Tr({"weights.size": "wsize", "arr.size": "asize"}, "Z")
+    D.append(("gen_sc_rejects_size", "(wsize asize : Z) : bool", "negb (%s =? %s)%%Z" % (tzz(l_), tzz(r_)), "if %s: raise" % up(sz_if[0].test)))
+    D.append(("gen_sc_size_error", "err", raise_class(sz_if[0].body[0], "sigma_clip size test"), "raise " + up(sz_if[0].body[0].exc.func)))
+    # res = []; res.append(m); res.append(s); if get_err: res.append(e); if get_indices: res.append(indices)
+    order = []
+    for st_ in b:
+        for x in ([st_] if not isinstance(st_, ast.If) else st_.body):
+            if isinstance(x, ast.Expr) and isinstance(x.value, ast.Call) and up(x.value.func) == "res.append" and len(x.value.args) == 1:
+                need(isinstance(x.value.args[0], ast.Name), "res.append(<name>)")
+                order.append((x.value.args[0].id, up(st_.test) if isinstance(st_, ast.If) else None))
+    need([c for _, c in order] == [None, None, "get_err", "get_indices"], "sigma_clip appends mean, deviation, [error if get_err], [indices if get_indices]")
+    D.append(("gen_sc_return_full", "list slot", slots([n for n, _ in order], "sigma_clip result"), "res.append(...) x4"))
     D.append(("gen_sigma_clip_weights_f64", "bool", "true", "weights = np.atleast_1d(weights).astype(np.float64)"))
     loops = [s for s in b if isinstance(s, ast.For)]
     need(len(loops) == 1 and not loops[0].orelse, "one for loop in sigma_clip")
@@ -352,6 +404,9 @@ def t_sigma_clip(tree, D):
          and [up(a) for a in val.args] == ["arr", "weights"], "m, e, s = wmom(arr, weights, ...)")
     kws = {k.arg: k.value for k in val.keywords}
     need(set(kws) == {"calcerr", "sdev"}, "wmom(..., calcerr=, sdev=) in _get_sigma_clip_stats")
+    D.append(("gen_scstats_unpack", "list slot", slots(tuple_names(wb[0].targets[0], "stats unpack"), "stats unpack"), up(wb[0])))
+    need(isinstance(sb[1], ast.Return), "_get_sigma_clip_stats return")
+    D.append(("gen_scstats_return", "list slot", slots(tuple_names(sb[1].value, "stats return"), "stats return"), up(sb[1])))
     D.append(("gen_scstats_calcerr", "bool", cbool(const(kws["calcerr"], (bool,))), up(wb[0])))
     D.append(("gen_scstats_sdev", "bool", cbool(const(kws["sdev"], (bool,))), up(wb[0])))
     ut = [up(s) for s in ub]
@@ -417,6 +472,8 @@ def t_get_stats(tree, D):
     need(len(wt) == 3 and wt[0].startswith("kw['sdev'] = ") and wt[2] == "mn, err, std = wmom(arr, weights, **kw)"
          and isinstance(wb.body[1], ast.If) and up(wb.body[1].test) == "'calcerr' not in kw" and len(wb.body[1].body) == 1,
          "weights branch of get_stats")
+    D.append(("gen_gs_clip_unpack", "list slot", slots(tuple_names(br.body[1].targets[0], "get_stats clip unpack"), "get_stats clip unpack"), up(br.body[1])))
+    D.append(("gen_gs_wmom_unpack", "list slot", slots(tuple_names(wb.body[2].targets[0], "get_stats wmom unpack"), "get_stats wmom unpack"), up(wb.body[2])))
     D.append(("gen_gs_sdev", "bool", cbool(const(wb.body[0].value, (bool,))), wt[0]))
     nm, val = assign1(wb.body[1].body[0], "kw['calcerr']")
     need(nm == "kw['calcerr']", "kw['calcerr'] = ...")
@@ -439,6 +496,7 @@ def t_cov(tree, D):
          and up(bx[1].body[0].exc.func) == "ValueError", "cxx = cov[ix, ix]; if <test>: raise ValueError")
     l, op, r = one_cmp(bx[1].test, "the diagonal test of cov2cor")
     tr = Tr({"cxx": "c"})
+    D.append(("gen_cov_diag_error", "err", raise_class(bx[1].body[0], "cov2cor diagonal test"), "raise " + up(bx[1].body[0].exc.func)))
     D.append(("gen_cov_diag_bad", "(c : Q) : bool", cmp_bool(op, tr(l), tr(r), "Q"), "if %s: raise ValueError" % up(bx[1].test)))
     need(isinstance(bx[2], ast.For) and up(bx[2].iter) == "range(cov.shape[1])" and up(bx[2].target) == "iy", "for iy in range(cov.shape[1])")
     by = bx[2].body
@@ -505,8 +563,12 @@ def gen_text(D):
            "   returned quantity), decisions and index arithmetic, read out of the source with python's ast.",
            "   C18/GenProofs.v proves that the hand-written model C18/Model.v is exactly these definitions. *)",
            "From Coq Require Import QArith Qabs ZArith.",
+           "From EsVerif.Common Require Import Base.   (* err: the model's error classes *)",
            "From EsVerif.C18 Require Import Model.   (* only for Qlt_bool x y := negb (Qle_bool y x) *)",
            "Open Scope Q_scope.",
+           "",
+           "(* a returned / unpacked position: weighted mean, error, deviation, indices *)",
+           "Inductive slot := SMean | SErr | SStd | SIdx.",
            ""]
     for name, sig, body, srcline in D:
         out.append("(* %s *)" % " ".join(srcline.split()).replace("(*", "( *").replace("*)", "* )"))
